@@ -21,6 +21,10 @@ pub enum Edit {
     Delete { off: usize, len: usize },
     /// insert bytes at `off`
     Insert { off: usize, bytes: Vec<u8> },
+    /// insert `count` copies of `pattern` at `off`; in copy i the counter `start + i * step`
+    /// replaces every `{#}` (ASCII decimal) and is written little-endian at the `(offset, width)`
+    /// positions of `le` — large adversarial inputs (amplification) without megabytes in the spec
+    Repeat { off: usize, pattern: Vec<u8>, count: u32, start: i64, step: i64, le: Vec<(u16, u8)> },
 }
 
 impl Edit {
@@ -44,12 +48,47 @@ impl Edit {
                 let at = (*off).min(v.len());
                 v.splice(at..at, bytes.iter().copied());
             }
+            Edit::Repeat { off, pattern, count, start, step, le } => {
+                let at = (*off).min(v.len());
+                let mut gen: Vec<u8> = Vec::with_capacity(pattern.len() * *count as usize + 16);
+                for i in 0..*count as i64 {
+                    let val = start + i * step;
+                    let mut p = pattern.clone();
+                    for (o, w) in le {
+                        let b = (val as u64).to_le_bytes();
+                        let o = *o as usize;
+                        if o + *w as usize <= p.len() {
+                            p[o..o + *w as usize].copy_from_slice(&b[..*w as usize]);
+                        }
+                    }
+                    let dec = val.to_string();
+                    let mut k = 0;
+                    while k < p.len() {
+                        if p[k..].starts_with(b"{#}") {
+                            gen.extend_from_slice(dec.as_bytes());
+                            k += 3;
+                        } else {
+                            gen.push(p[k]);
+                            k += 1;
+                        }
+                    }
+                }
+                v.splice(at..at, gen);
+            }
+        }
+    }
+    /// bytes this edit generates (for the time budget of amplified inputs)
+    pub fn generated(&self) -> usize {
+        match self {
+            Edit::Repeat { pattern, count, .. } => (pattern.len() + 8) * *count as usize,
+            Edit::Insert { bytes, .. } => bytes.len(),
+            _ => 0,
         }
     }
     /// first byte offset touched (for the consumed/dormant classification)
     pub fn offset(&self) -> usize {
         match self {
-            Edit::Set { off, .. } | Edit::Delete { off, .. } | Edit::Insert { off, .. } => *off,
+            Edit::Set { off, .. } | Edit::Delete { off, .. } | Edit::Insert { off, .. } | Edit::Repeat { off, .. } => *off,
             Edit::Trunc { len } => *len,
         }
     }
